@@ -1237,6 +1237,31 @@ pub fn run_keyed(args: &Args, rep: &mut Report) {
     const P: &str = "C18";
     let rt = rt();
     for (k, mut rng) in case_iter(args, 0xC18, 40) {
+        if k % 4 == 3 {
+            let res = xvcommon::catch(|| keyed_mixture_case(&mut rng, &rt));
+            let w = |what: &str| {
+                let mut w = witness_base(args, "shard_keyed", k);
+                w["mode"] = json!("mixture of keys in one directory");
+                w["what"] = json!(what);
+                w
+            };
+            match res {
+                Ok(Ok((hits, nk))) => {
+                    rep.count(P, "keyed_mixture_directories", 1);
+                    rep.count(P, "keyed_mixture_hits_identical", hits);
+                    rep.case(P, Some(format!("mixture|k{nk}|h{}", (hits > 0) as u8)));
+                },
+                Ok(Err((sig, msg))) => {
+                    rep.violation(P, &sig, &msg, w(&msg));
+                    rep.case(P, None);
+                },
+                Err(pn) => {
+                    rep.violation(P, "keyed-mixture-panic", &pn, w(&pn));
+                    rep.case(P, None);
+                },
+            }
+            continue;
+        }
         let unique = k % 2 == 0; // unique chunk hashes => answers are unique => exact comparison
         let p = GenParams {
             n_cas: rng.urange(1, 12),
@@ -1411,6 +1436,69 @@ pub fn run_keyed(args: &Args, rep: &mut Report) {
             },
         }
     }
+}
+
+/// C18: several shards under several keys (and unkeyed ones) in ONE directory; a manager over the mixture
+/// must answer unkeyed queries exactly like a manager over the original shards
+fn keyed_mixture_case(rng: &mut Rng, rt: &tokio::runtime::Runtime) -> Result<(u64, u64), Fail> {
+    let src = tempfile::tempdir().unwrap();
+    let mix = tempfile::tempdir().unwrap();
+    let n_shards = rng.urange(3, 7);
+    let keys: Vec<Option<MerkleHash>> = vec![None, Some(rand_hash(rng)), Some(rand_hash(rng)), Some(rand_hash(rng))];
+    let mut truth: Truth = HashMap::new();
+    let mut n_keys_used = std::collections::HashSet::new();
+    for _ in 0..n_shards {
+        let p = GenParams {
+            n_cas: rng.urange(1, 6),
+            max_chunks_per_cas: *rng.pick(&[5usize, 40]),
+            n_files: rng.urange(0, 4),
+            cas_space: KeySpace::Uniform,
+            chunk_space: KeySpace::Uniform,
+            file_space: KeySpace::Uniform,
+            max_group_keys: 2,
+            max_group_chunks: 2,
+            dup_chunks: false,
+            flags: None,
+        };
+        let model = gen_model(rng, &p);
+        if model.cas.is_empty() {
+            continue;
+        }
+        truth.extend(truth_of(&model));
+        let pth = write_model_shard(src.path(), &model)?;
+        let sf = MDBShardFile::load_from_file(&pth).map_err(|e| ("load".to_string(), format!("{e}")))?;
+        let ki = rng.usize_below(keys.len());
+        n_keys_used.insert(ki);
+        match keys[ki] {
+            None => {
+                std::fs::copy(&pth, mix.path().join(pth.file_name().unwrap())).map_err(|e| ("io".to_string(), format!("{e}")))?;
+            },
+            Some(k) => {
+                sf.export_as_keyed_shard(mix.path(), k, Duration::from_secs(100_000), rng.chance(1, 2), rng.chance(1, 2), rng.chance(1, 2))
+                    .map_err(|e| ("keyed-export-error".to_string(), format!("{e}")))?;
+            },
+        }
+    }
+    if truth.is_empty() {
+        return Ok((0, 0));
+    }
+    let qg = QueryGen::new(&truth);
+    let m_orig = rt.block_on(ShardFileManager::new_in_session_directory(src.path())).map_err(|e| ("manager-open".to_string(), format!("{e}")))?;
+    let m_mix = rt.block_on(ShardFileManager::new_in_session_directory(mix.path())).map_err(|e| ("manager-open".to_string(), format!("{e}")))?;
+    let mut hits = 0u64;
+    for _ in 0..150 {
+        let (q, _) = qg.gen(rng, &truth);
+        let a0 = rt.block_on(m_orig.chunk_hash_dedup_query(&q)).map_err(|e| ("keyed-query-error".to_string(), format!("{e}")))?;
+        let a1 = rt.block_on(m_mix.chunk_hash_dedup_query(&q)).map_err(|e| ("keyed-query-error".to_string(), format!("{e}")))?;
+        check_answer(&truth, &q, &a0).map_err(|(s, m2)| (format!("orig-{s}"), m2))?;
+        if check_answer(&truth, &q, &a1).map_err(|(s, m2)| (format!("keyed-mixture-{s}"), m2))? {
+            hits += 1;
+        }
+        if a0 != a1 {
+            return fail("keyed-mixture-dedup-differs", format!("manager over a directory mixing {} keys answers differently from the manager over the original shards (orig hit={}, mixture hit={})", n_keys_used.len(), a0.is_some(), a1.is_some()));
+        }
+    }
+    Ok((hits, n_keys_used.len() as u64))
 }
 
 /// write a shard whose footer carries the given (creation, expiry); returns its path
